@@ -111,7 +111,7 @@ func cases(run *vf.Run) ([]json.RawMessage, error) {
 		cfg.AutoVacuum = []int{2, 1, 0, 2}[(i/len(hist.PageSizes)+i)%4]
 		s := spec{
 			Seed:  vf.SubSeed(run.Seed, "C18-case", i),
-			Ops:   70 + rng.Intn(50),
+			Ops:   50 + rng.Intn(40),
 			Cfg:   cfg,
 			SQL:   i%4 == 1,
 			Cache: []int{1, 0, 8, 1}[i%4],
@@ -188,22 +188,8 @@ var vfsSeq int64
 func quiet() *slog.Logger { return slog.New(slog.NewTextHandler(io.Discard, nil)) }
 
 func runCase(run *vf.Run, raw json.RawMessage, dir string) *vf.Result {
-	res := runCase1(run, raw, dir)
-	return res
-}
-
-func runCase1(run *vf.Run, raw json.RawMessage, dir string) *vf.Result {
 	var s spec
 	res := &vf.Result{}
-	if p := os.Getenv("C18_DEBUG_TIMES"); p != "" {
-		t0 := time.Now()
-		defer func() {
-			if f, err := os.OpenFile(p, os.O_APPEND|os.O_CREATE|os.O_WRONLY, 0o644); err == nil {
-				fmt.Fprintf(f, "%8.1fs evals=%d viol=%d %s\n", time.Since(t0).Seconds(), res.Evals, len(res.Violations), string(raw))
-				f.Close()
-			}
-		}()
-	}
 	if err := json.Unmarshal(raw, &s); err != nil {
 		res.HarnessErr = err.Error()
 		return res
